@@ -244,6 +244,7 @@ class Inliner:
         self.counter = 0
         self.log: list[str] = []
         self._unique_methods = None
+        self.residual: dict[str, list[str]] = {}  # function key -> new private helpers it still calls (could not be expanded)
         import json
         import os
 
@@ -257,7 +258,7 @@ class Inliner:
             return self.cache[key]
         if key in self.active or len(self.active) >= MAX_DEPTH:
             return f.raw
-        from .normalize import desugar_tables, matchify, might_apply, might_dispatch, might_matchify, might_unroll, normalize_formats, unroll_literal_loops
+        from .normalize import scalar_replace, desugar_tables, matchify, might_apply, might_dispatch, might_matchify, might_unroll, normalize_formats, unroll_literal_loops
 
         cand = self._has_candidate(f.raw)
         fmt = might_apply(f.raw) or might_dispatch(f.raw, f.module.top) or might_unroll(f.raw, f.module.top) or might_matchify(f.raw) or cand
@@ -270,6 +271,7 @@ class Inliner:
             node = copy.deepcopy(f.raw)
             changed = self._block_owner(node, f, node) if cand else False
             if fmt or changed:
+                changed |= scalar_replace(node, f.module)
                 changed |= unroll_literal_loops(node, f.module.top)
                 changed |= normalize_formats(node, f.module.top)
                 changed |= desugar_tables(node, f.module.top)
@@ -278,6 +280,9 @@ class Inliner:
             if changed:
                 ast.fix_missing_locations(out)
             out = self._roles(f, out)
+            res = self._residual_calls(out, f)
+            if res:
+                self.residual[key[0] + ":" + key[1]] = res
         finally:
             self.active.discard(key)
         self.cache[key] = out
@@ -292,6 +297,27 @@ class Inliner:
                 if nm and _is_private(nm):
                     return True
         return False
+
+    # ------------------------------------------------------------------
+    def _residual_calls(self, node, f):
+        """names of private helpers that are not rule boundaries and are still called in the view of f"""
+        out = []
+        known_names = {k.rpartition(":")[2].rpartition(".")[2] for k in self.boundaries}
+        for n in ast.walk(node):
+            if isinstance(n, ast.Call):
+                fn = n.func
+                nm = fn.id if isinstance(fn, ast.Name) else fn.attr if isinstance(fn, ast.Attribute) else None
+                if nm and _is_private(nm) and nm not in known_names and nm not in out:
+                    # only helpers defined in the package count (not e.g. np._something)
+                    if any(nm == k.rpartition(".")[2] or k.endswith(":" + nm) for k in self._package_private()):
+                        out.append(nm)
+        return out
+
+    def _package_private(self):
+        if getattr(self, "_pp", None) is None:
+            self._pp = {f"{g.module.relpath}:{g.qualname}" for g in self.prog._all_functions()
+                        if _is_private(g.qualname.rpartition(".")[2])}
+        return self._pp
 
     # ------------------------------------------------------------------
     def _roles(self, f, node):
@@ -402,6 +428,24 @@ class Inliner:
                     return self._expand_with(s, r[0], r[1], f, root)
                 except _NoInline as e:
                     self.log.append(f"{f.key}: {r[0].key} (context manager) not inlined: {e}")
+        if isinstance(s, ast.For) and not s.orelse and isinstance(s.iter, ast.Call):
+            # `for T in helper(args): BODY` with helper a private generator: its statements, each `yield v` replaced by `T = v; BODY`
+            r = self._resolve(s.iter, f, generator=True)
+            if r is not None:
+                try:
+                    return self._expand_for(s, r[0], r[1], root)
+                except _NoInline as e:
+                    self.log.append(f"{f.key}: {r[0].key} (generator in for) not inlined: {e}")
+        if isinstance(s, (ast.Assign, ast.AnnAssign)) and isinstance(s.value, ast.Call) and isinstance(s.value.func, ast.Name) and s.value.func.id == "list" \
+                and len(s.value.args) == 1 and not s.value.keywords and isinstance(s.value.args[0], ast.Call):
+            # `x = list(helper(args))`: x = [] and the generator's statements with `yield v` replaced by `x.append(v)`
+            tgt = s.targets[0] if isinstance(s, ast.Assign) and len(s.targets) == 1 else getattr(s, "target", None)
+            r = self._resolve(s.value.args[0], f, generator=True)
+            if r is not None and isinstance(tgt, (ast.Name, ast.Attribute)):
+                try:
+                    return self._expand_collect(s, tgt, r[0], r[1], root)
+                except _NoInline as e:
+                    self.log.append(f"{f.key}: {r[0].key} (generator in list()) not inlined: {e}")
         if isinstance(s, ast.Expr) and isinstance(s.value, ast.YieldFrom) and isinstance(s.value.value, ast.Call):
             # `yield from helper(args)`: the generator helper's statements, yields and all
             r = self._resolve(s.value.value, f, generator=True)
@@ -562,6 +606,71 @@ class Inliner:
         elif callee.cls is not None and isinstance(recv, ast.Name) and f.module.classes.get(recv.id) is not None and recv.id not in ("self", "cls"):
             return None  # Class.method(obj, ...) form: leave alone
         return callee, recv
+
+    # ------------------------------------------------------------------
+    @staticmethod
+    def _replace_yields(body, make):
+        """every statement `yield v` of the (copied) generator body -> make(v); a yield used as an expression is refused"""
+        n = [0]
+
+        def rewrite(blk):
+            i = 0
+            while i < len(blk):
+                st = blk[i]
+                if isinstance(st, ast.Expr) and isinstance(st.value, ast.Yield):
+                    new = make(st.value.value if st.value.value is not None else ast.Constant(None), st)
+                    blk[i : i + 1] = new
+                    n[0] += 1
+                    i += len(new)
+                    continue
+                for x in _walk_same_func(st):
+                    if isinstance(x, ast.Yield) and not (isinstance(st, ast.Expr) and st.value is x):
+                        if not any(isinstance(y, ast.Expr) and y.value is x for y in _walk_same_func(st)):
+                            raise _NoInline("yield used as an expression")
+                for fld in ("body", "orelse", "finalbody"):
+                    b = getattr(st, fld, None)
+                    if isinstance(b, list) and b and isinstance(b[0], ast.stmt) and not isinstance(st, (ast.FunctionDef, ast.AsyncFunctionDef, ast.ClassDef)):
+                        rewrite(b)
+                if isinstance(st, ast.Try):
+                    for h in st.handlers:
+                        rewrite(h.body)
+                if isinstance(st, ast.Match):
+                    for c in st.cases:
+                        rewrite(c.body)
+                i += 1
+
+        rewrite(body)
+        return n[0]
+
+    def _expand_for(self, s, callee, recv, root):
+        for n in _walk_loop_body(s):
+            if isinstance(n, (ast.Break, ast.Continue)):
+                raise _NoInline("the consuming loop uses break / continue")
+        pre, body = self._bind(s.iter, callee, recv, root, {x.id for x in ast.walk(s.target) if isinstance(x, ast.Name)})
+
+        def make(v, at):
+            return [ast.copy_location(ast.Assign([copy.deepcopy(s.target)], v), at)] + copy.deepcopy(list(s.body))
+
+        k = self._replace_yields(body, make)
+        if not 1 <= k <= 3:
+            raise _NoInline(f"{k} yield statements")
+        return pre + (_convert(body, lambda e: []) or [ast.copy_location(ast.Pass(), s)])
+
+    def _expand_collect(self, s, tgt, callee, recv, root):
+        pre, body = self._bind(s.value.args[0], callee, recv, root, {x.id for x in ast.walk(tgt) if isinstance(x, ast.Name)})
+
+        def make(v, at):
+            load = copy.deepcopy(tgt)
+            for x in ast.walk(load):
+                if hasattr(x, "ctx"):
+                    x.ctx = ast.Load()
+            return [ast.copy_location(ast.Expr(ast.Call(ast.Attribute(load, "append", ast.Load()), [v], [])), at)]
+
+        k = self._replace_yields(body, make)
+        if k < 1:
+            raise _NoInline("no yield statement")
+        init = ast.copy_location(ast.Assign([copy.deepcopy(tgt)], ast.List([], ast.Load())), s)
+        return pre + [init] + _convert(body, lambda e: [])
 
     # ------------------------------------------------------------------
     def _expand_with(self, s, callee, recv, f, root):
